@@ -921,3 +921,35 @@ package pipeline
 //@     requires p.disableStreams ==> name == old(event.streamName)
 //@     pure
 //@     set nput := nput + 1
+
+// ---------------------------------------------------------------------------
+// C04: the list of blocked streams (streams whose processor waits in blockGet; the
+// streamer's heartbeat sends a time-out event to the streams in this list only).
+// Representation invariant, guarded by blockedMu: the stream at position i carries
+// blockIndex i.  A stream with a stale index would later remove another, still
+// blocked, stream from the list - which then never gets its time-out (a wedge).
+
+//@ monitor streamer.blockedMu
+//@   self s
+//@   protects blocked
+//@   invariant forall i :: 0 <= i && i < len(s.blocked) ==> s.blocked[i] != nil && s.blocked[i].blockIndex == i
+
+// makeBlocked: the stream is not in the list yet (only its own processor blocks it,
+// and takes it out again before blocking anew: an assumption, listed).
+
+//@ func (*streamer).makeBlocked
+//@   requires stream != nil
+//@   requires !held(s.blockedMu)
+//@   assume at "stream.blockIndex = len(s.blocked)" forall i :: 0 <= i && i < len(s.blocked) ==> s.blocked[i] != stream
+//@   ensures !held(s.blockedMu)
+
+// resetBlocked: the caller's stream is the one listed at its index (precondition:
+// what "is blocked" means); afterwards it is out of the list and the invariant holds
+// again - in particular the stream moved into the hole carries its new index.
+
+//@ func (*streamer).resetBlocked
+//@   option allow-exit yes
+//@   requires stream != nil
+//@   requires !held(s.blockedMu)
+//@   assume at "lastIndex := len(s.blocked) - 1" stream.blockIndex >= -1 && (stream.blockIndex >= 0 ==> stream.blockIndex < len(s.blocked) && s.blocked[stream.blockIndex] == stream)
+//@   ensures !held(s.blockedMu) && stream.blockIndex == -1
